@@ -58,6 +58,12 @@ def rand_data(rng, n, strong=False):
     return {"columns": cols, "rows": rows}
 
 
+def _quiet():
+    import logging
+
+    logging.getLogger("pgmpy").setLevel(logging.ERROR)
+
+
 def _frame(case):
     import pandas as pd
 
@@ -190,6 +196,7 @@ def check_hc(case):
     from pgmpy.base import DAG
     from pgmpy.estimators import HillClimbSearch
 
+    _quiet()
     data = _frame(case)
     cols = case["columns"]
     for ci, cfg in enumerate(case["configs"]):
@@ -258,6 +265,7 @@ def check_ex(case):
     from pgmpy.base import DAG
     from pgmpy.estimators import ExhaustiveSearch
 
+    _quiet()
     data = _frame(case)
     cols = case["columns"]
     n = len(cols)
@@ -387,6 +395,7 @@ def check_tree(case):
     from pgmpy.base import DAG
     from pgmpy.estimators import TreeSearch
 
+    _quiet()
     data = _frame(case)
     cols = case["columns"]
     for fn in WEIGHT_FNS:
@@ -407,14 +416,15 @@ def check_tree(case):
                 f = check_arborescence("TreeSearch.chow-liu", tag, cols, r, dag.edges(), w)
                 if f is not None:
                     return f
-        for cls in cols:
+        for k, cls in enumerate(cols):
             feats = [c for c in cols if c != cls]
-            if len(feats) < 2:
+            # TAN is expensive in pgmpy (conditional weights): <= 3 columns everything, else one weight function per class node, 2 roots
+            if len(cols) > 3 and WEIGHT_FNS[(k + len(case["rows"])) % 3] != fn:
                 continue
             cw = weights(case, fn, feats, given=cls)
             if min(cw.values()) <= 1e-9:
                 continue
-            for root in feats:
+            for root in (feats if len(cols) <= 3 else [feats[k % len(feats)], feats[(k + 2) % len(feats)]]):
                 dag = TreeSearch(data, root_node=root, n_jobs=1).estimate(estimator_type="tan", class_node=cls, edge_weights_fn=fn, show_progress=False)
                 tag = f"tan {fn} class={cls} root={root}"
                 E = [tuple(e) for e in dag.edges()]
@@ -437,7 +447,8 @@ def groups(tier):
                     "whenever the tabu list is disabled (or the result equals the start graph)"),
         Group("exhaustive", gen_ex, check_ex, None, seed_fanout=1, engine="E3",
               bound="seeded data sets on 2..4 columns; estimate() vs maximum over own enumeration of all DAGs (3/25/543); all_scores() on <= 3 columns"),
-        Group("tree_search", gen_tree, check_tree, None, seed_fanout=2, engine="E3",
-              bound="seeded data sets on 3..5 columns; chow-liu for every root (+ default root) and TAN for every class node and root, 3 weight functions "
-                    "(skipped when some pairwise weight is not strictly positive); maximum over all spanning trees by brute force"),
+        Group("tree_search", gen_tree, check_tree, None, seed_fanout=1, engine="E3",
+              bound="seeded data sets on 3..5 columns; chow-liu for every root (+ default root) and 3 weight functions; TAN for every class node "
+                    "(3 columns: every root and weight function; more: 2 roots, one weight function per class node); combinations where some pairwise "
+                    "weight is not strictly positive are skipped; maximum over all spanning trees by brute force"),
     ]
